@@ -297,15 +297,14 @@ impl Pattern {
      * Implement csh-style alternate matches.  Pattern::new() has already
      * verified that the pattern is valid and the braces are correctly balanced.
      *
-     * The algorithm starts at the right-most opening brace and iteratively works
-     * backwards, expanding each alternate match and recursively calling Pattern
-     * to verify that there is a match.
+     * The algorithm expands the right-most opening brace, which is always an
+     * innermost group so that its closing brace is the first one that follows
+     * and its commas all belong to it, and recursively calls Pattern on each
+     * expansion; any remaining groups are expanded by those recursive calls.
      */
     fn alternate_match(pattern: &str, pkg: &str) -> bool {
-        for (i, _) in
-            pattern.match_indices('{').collect::<Vec<_>>().iter().rev()
-        {
-            let (first, rest) = pattern.split_at(*i);
+        if let Some(i) = pattern.rfind('{') {
+            let (first, rest) = pattern.split_at(i);
             /* This shouldn't fail as new() already verified, but... */
             let Some(n) = rest.find('}') else {
                 return false;
